@@ -28,6 +28,13 @@ def make_cases(rng, tier, budget):
             ins = [["mutate", plant]] + ins
         c["history"] = h[:pos] + ins + h[pos:]
         out.append(c)
+    # a first build whose cache file lives in directories the build itself has to make, then clean (twice)
+    for _ in range((6 if tier == "quick" else 40) * budget):
+        c = g.case(nsteps=1)
+        b = [s for s in c["history"] if s[0] == "build"][-1]
+        c["cache"] = rng.choice([["work", "cache"], ["work", "state", "cache"]])
+        c["history"] = [["mutate", [["write", ["keep"], "K"]]], ["build", b[1], b[2]], ["clean", None], ["clean", None]]
+        out.append(c)
     return out
 
 
@@ -38,7 +45,34 @@ def nontrivial(c, o, st):
     return False
 
 
-t2, t3 = seqprop.make_module("C12", ["foreign"], make_cases, nontrivial)
+def oracle_clean_first(case, obs, stats):
+    """clean right after a committed build that started without a cache file: the tree is the tree from
+    before that build (minus regular files at target paths) - in particular the directories the build
+    made to hold the cache file are gone.  Stated without the reference semantics, so it also covers the
+    cache-only directories that the comparison with Spec/Ref.v leaves out."""
+    fails = []
+    h = case["history"]
+    for j in range(1, len(h)):
+        if h[j][0] != "clean" or h[j - 1][0] != "build" or not obs[j - 1][0].startswith("ok:") or obs[j][0].startswith("err:"):
+            continue
+        before = [seqprop.split_line(l) for l in (seqprop.tree_of(obs[j - 2]) if j >= 2 else [])]
+        if any(b[1] == "CACHE" for b in before):
+            continue
+        after = [seqprop.split_line(l) for l in seqprop.tree_of(obs[j])]
+        targets = set(stats["meta"][j - 1]["targets"])
+        bd, ad = {b[0] for b in before if b[1] == "D"}, {a[0] for a in after if a[1] == "D"}
+        bf, af = {b[0] for b in before if b[1] == "F"}, {a[0] for a in after if a[1] != "D"}
+        if ad != bd:
+            fails.append({"oracle": "clean after a first build leaves exactly the directories that were there before", "step": j,
+                          "left_behind": sorted(ad - bd), "missing": sorted(bd - ad)})
+        if not (af <= bf) or not (bf - targets <= af):
+            fails.append({"oracle": "clean after a first build leaves exactly the foreign files", "step": j,
+                          "extra": sorted(af - bf), "missing": sorted(bf - targets - af)})
+    return fails
+
+
+seqprop.ORACLES["clean_first"] = oracle_clean_first
+t2, t3 = seqprop.make_module("C12", ["foreign", "clean_first"], make_cases, nontrivial)
 RULE = ("generated histories with clean inserted at a random position (after commits, rollbacks, tampering, "
         "a previous clean); non-trivial when a clean step changed the tree")
 TRUSTED = ["DSL interpreter and Gallina emitter (harness/dsl.py)", "model of the POSIX calls (Base/Fs.v)"]
